@@ -36,7 +36,7 @@ func DumpIDL(ast *parser.Thrift) (string, error) {
 	var sb stringBuilder
 
 	for _, include := range ast.Includes {
-		sb.writeString(fmt.Sprintf("include \"%s\"\n", include.Path))
+		sb.writeString(fmt.Sprintf("include %s\n", quoteLiteral(include.Path)))
 	}
 
 	if len(ast.Includes) > 0 {
@@ -54,7 +54,7 @@ func DumpIDL(ast *parser.Thrift) (string, error) {
 	}
 
 	for _, include := range ast.CppIncludes {
-		sb.writeString(fmt.Sprintf("cpp_include \"%s\"\n", include))
+		sb.writeString(fmt.Sprintf("cpp_include %s\n", quoteLiteral(include)))
 	}
 
 	if len(ast.CppIncludes) > 0 {
@@ -174,14 +174,7 @@ func DumpIDL(ast *parser.Thrift) (string, error) {
 		sb.writeString("\n\n")
 	}
 
-	escapedString := sb.String()
-	// 把 " 替换为 \"
-	escapedString = strings.Replace(escapedString, "##34;", `\"`, -1)
-	// 如果本身就有 \"，上面的情况就会变成 \\"，给转回 \"
-	escapedString = strings.Replace(escapedString, `\\"`, `\"`, -1)
-	// tag 的前后符号统一采用 "
-	outString := strings.Replace(escapedString, "#OUTQUOTES", "\"", -1)
-	return html.UnescapeString(outString), nil
+	return sb.String(), nil
 }
 
 func typeName(t *parser.Type) string {
@@ -209,10 +202,6 @@ type stringBuilder struct {
 }
 
 func (s *stringBuilder) writeString(str string) {
-	if strings.Contains(str, "&") {
-		// 将 & 转义为 &amp;
-		str = strings.ReplaceAll(str, "&", "&amp;")
-	}
 	s.buffer.WriteString(str)
 }
 
@@ -220,13 +209,44 @@ func (s *stringBuilder) String() string {
 	return s.buffer.String()
 }
 
-func joinQuotes(s string) string {
-	return fmt.Sprintf("%s", "#OUTQUOTES"+s+"#OUTQUOTES")
+// quoteLiteral writes s as an IDL literal that the parser reads back as s.
+// The parser removes a backslash only in front of the enclosing quote and
+// keeps a doubled backslash as two characters, so double quotes are used
+// unless s has a double quote after an odd number of backslashes.
+func quoteLiteral(s string) string {
+	if out, ok := quoteWith(s, '"'); ok {
+		return out
+	}
+	out, _ := quoteWith(s, '\'')
+	return out
 }
 
-func replaceQuotes(s string) string {
-	out := strings.Replace(s, "\"", "#OUTQUOTES", -1)
-	return out
+// quoteWith puts s between two quote characters with a backslash in front of
+// every quote that follows an even number of backslashes. A quote after an
+// odd number of backslashes cannot be written this way: ok is false.
+func quoteWith(s string, quote byte) (out string, ok bool) {
+	var b strings.Builder
+	ok = true
+	backslashes := 0
+	b.WriteByte(quote)
+	for i := 0; i < len(s); i++ {
+		c := s[i]
+		if c == quote {
+			if backslashes%2 == 0 {
+				b.WriteByte('\\')
+			} else {
+				ok = false
+			}
+		}
+		if c == '\\' {
+			backslashes++
+		} else {
+			backslashes = 0
+		}
+		b.WriteByte(c)
+	}
+	b.WriteByte(quote)
+	return b.String(), ok
 }
 
 func printAnnotation(sb *stringBuilder, a parser.Annotations) {
@@ -236,9 +256,7 @@ func printAnnotation(sb *stringBuilder, a parser.Annotations) {
 	sb.writeString("(")
 	for i, anno := range a {
 		for ii, v := range anno.Values {
-			val := strings.ReplaceAll(joinQuotes(v), `"`, "##34;")
-
-			sb.writeString(fmt.Sprintf("%s = %s", anno.Key, val))
+			sb.writeString(fmt.Sprintf("%s = %s", anno.Key, quoteLiteral(v)))
 			if i != len(a)-1 || ii != len(anno.Values)-1 {
 				sb.writeString(", ")
 			}
@@ -249,7 +267,7 @@ func printAnnotation(sb *stringBuilder, a parser.Annotations) {
 
 func printComment(sb *stringBuilder, comment, prefix string) {
 	if len(strings.TrimSpace(comment)) > 0 {
-		sb.writeString(prefix + replaceQuotes(comment) + "\n")
+		sb.writeString(prefix + comment + "\n")
 	}
 }
 
@@ -293,9 +311,7 @@ func printConstTypedValue(sb *stringBuilder, ctv *parser.ConstTypedValue) {
 	} else if ctv.Int != nil {
 		sb.writeString(fmt.Sprintf("%d", *ctv.Int))
 	} else if ctv.Literal != nil {
-		val := *ctv.Literal
-		val = strings.ReplaceAll(joinQuotes(val), `"`, "##34;")
-		sb.writeString(fmt.Sprintf("%s", val))
+		sb.writeString(quoteLiteral(*ctv.Literal))
 	} else if ctv.Identifier != nil {
 		sb.writeString(fmt.Sprintf("%s", *ctv.Identifier))
 	} else if ctv.IsSetList() {
